@@ -221,6 +221,10 @@ def gen_verdict_decls(rng, tier):
     # ---- regex
     b.add("String", [block("validate", [[tid("regex"), EQ, tstr("(")]])], "validate:invalid_regex")
     b.add("String", [block("validate", [[tid("regex"), EQ, tstr("[a-")]])], "validate:invalid_regex")
+    # literals whose validity depends on reading the escapes of the Rust literal (value, not spelling)
+    for val, ok in (("[\\]", False), ("\\", False), ("a\\", False), ("\"", True), ("\\d+", True), ("\\\\", True), ("[\\]]", True)):
+        for raw in (False, True):
+            b.add("String", [block("validate", [[tid("regex"), EQ, tstr(val, raw)]]), derive_block(["Debug"])], "ok" if ok else "validate:invalid_regex")
     b.add("String", [block("validate", [[tid("regex"), EQ, tstr(REGEX_LITS[2])]]), D(["Debug"])], "ok")
     b.add("String", [block("validate", [[tid("regex"), EQ, tpath("RE1")]]), D(["Debug"])], "ok")
     b.add("i32", [block("validate", [[tid("regex"), EQ, tstr("@")]])], "parse:unknown_validator")
@@ -275,6 +279,11 @@ def gen_feature_decls(rng, tier):
 REL = {"greater": lambda x, b: x > b, "greater_or_equal": lambda x, b: x >= b,
        "less": lambda x, b: x < b, "less_or_equal": lambda x, b: x <= b,
        "len_char_min": lambda x, b: x >= b, "len_char_max": lambda x, b: x <= b}
+
+
+def consts_f(ty, lo, hi):
+    is64 = FLOAT_TYPES[ty]
+    return [("LO", ty, fbits(lo, is64), "const LO: %s = %s;" % (ty, lo)), ("HI", ty, fbits(hi, is64), "const HI: %s = %s;" % (ty, hi))]
 
 
 def gen_c02_decls(rng, tier):
@@ -334,6 +343,49 @@ def gen_c02_decls(rng, tier):
                    [block("sanitize", [[tid("with"), EQ, tfn(0, "p", "s")]]), block("sanitize", [[tid("with"), EQ, tfn(1, "p", "s")]])]):
         d = b.add("i32", blocks + [D(["Debug"])], "must be refused")
         d.tags.add("mustreject")
+    # ---- presence: several rules at once, each with a witness input that it alone (or it first) must refuse
+    def presence(inner, items, witnesses, env=None):
+        d = b.add(inner, [block("validate", items), D(["Debug"])], "presence", env=env or [])
+        d.tags.add("presence")
+        d.witnesses = witnesses
+        return d
+    for ty in ("i32", "u8"):
+        for lk in LOWER:
+            for uk in UPPER:
+                for spell in range(4):   # lit/lit, lit/const, const/lit, const/const
+                    env = [("LO", ty, 3, "const LO: %s = 3;" % ty), ("HI", ty, 10, "const HI: %s = 10;" % ty)]
+                    lo = [tid(lk), EQ, li(3) if spell & 1 == 0 else tx(k("LO"))]
+                    hi = [tid(uk), EQ, li(10) if spell & 2 == 0 else tx(k("HI"))]
+                    for items in ([lo, hi], [hi, lo]):
+                        presence(ty, items, [(lk, ("i", 2)), (uk, ("i", 11))], env)
+    for ty in ("f32", "f64"):
+        is64 = FLOAT_TYPES[ty]
+        nan = 0x7FF8000000000000 if is64 else 0x7FC00000
+        pinf = 0x7FF0000000000000 if is64 else 0x7F800000
+        ninf = pinf | (1 << (63 if is64 else 31))
+        FIN = [tid("finite")]
+        for lk in LOWER:
+            for uk in UPPER:
+                for spell in range(4):
+                    env = consts_f(ty, "-2.5", "7.5")
+                    lo = [tid(lk), EQ, lf("-2.5") if spell & 1 == 0 else tx(k("LO"))]
+                    hi = [tid(uk), EQ, lf("7.5") if spell & 2 == 0 else tx(k("HI"))]
+                    wl, wu = (lk, ("f", fbits("-3.0", is64))), (uk, ("f", fbits("8.0", is64)))
+                    wf = [("finite", ("f", nan)), ("finite", ("f", pinf)), ("finite", ("f", ninf))]
+                    for items in permutations([FIN, lo, hi])[:: 1 if spell in (0, 3) else 2]:
+                        presence(ty, items, [wl, wu] + wf, env)
+                    if spell in (0, 3):
+                        presence(ty, [FIN, lo], [wl] + wf, env)
+                        presence(ty, [hi, FIN], [wu] + wf, env)
+    MN, MX, NE = [tid("len_char_min"), EQ, li(2)], [tid("len_char_max"), EQ, li(4)], [tid("not_empty")]
+    RXL = [tid("regex"), EQ, tstr(REGEX_LITS[0])]
+    for items, wit in (([NE, MN, MX], [("not_empty", ("s", "")), ("len_char_min", ("s", "a")), ("len_char_max", ("s", "abcde"))]),
+                       ([MX, MN, NE], [("not_empty", ("s", "")), ("len_char_min", ("s", "a")), ("len_char_max", ("s", "abcde"))]),
+                       ([MX, NE], [("not_empty", ("s", "")), ("len_char_max", ("s", "abcde"))]),
+                       ([NE, RXL, MX], [("not_empty", ("s", "")), ("regex", ("s", "aB")), ("len_char_max", ("s", "abcde"))]),
+                       ([RXL, MN], [("regex", ("s", "a1")), ("len_char_min", ("s", "a"))]),
+                       ([MN, RXL, NE], [("regex", ("s", "ab ")), ("len_char_min", ("s", "a")), ("not_empty", ("s", ""))])):
+        presence("String", items, wit)
     # ---- layout families
     fam_id = 0
 
@@ -409,6 +461,20 @@ def gen_gentest_decls(rng, tier):
         env = [("MN", "usize", mn, "const MN: usize = %d;" % mn), ("MX", "usize", mx, "const MX: usize = %d;" % mx)]
         b.add("String", [block("validate", [[tid("len_char_min"), EQ, tx(k("MN"))], [tid("len_char_max"), EQ, tx(k("MX"))]]), D(["Debug"])], "gentest", env=env)
         b.add("String", [block("validate", [[tid("len_char_max"), EQ, tx(k("MX"))], [tid("len_char_min"), EQ, tx(k("MN"))]]), D(["Debug"])], "gentest", env=env)
+        # one literal and one expression (the macro cannot compare them either), and two literals
+        b.add("String", [block("validate", [[tid("len_char_min"), EQ, li(mn)], [tid("len_char_max"), EQ, tx(k("MX"))]]), D(["Debug"])], "gentest", env=env)
+        b.add("String", [block("validate", [[tid("len_char_min"), EQ, tx(k("MN"))], [tid("len_char_max"), EQ, li(mx)]]), D(["Debug"])], "gentest", env=env)
+        if mn <= mx:
+            b.add("String", [block("validate", [[tid("len_char_max"), EQ, li(mx)], [tid("len_char_min"), EQ, li(mn)]]), D(["Debug"])], "gentest")
+    for ty in ("i16", "u64"):
+        for lo, hi in ((3, 9), (5, 5), (9, 3)):
+            b.add(ty, [block("validate", [[tid("greater_or_equal"), EQ, li(lo)], [tid("less_or_equal"), EQ, tx(k("HI"))]]), D(["Debug"])],
+                  "gentest", env=consts(ty, lo, hi))
+            b.add(ty, [block("validate", [[tid("less"), EQ, li(hi)], [tid("greater"), EQ, tx(k("LO"))]]), D(["Debug"])],
+                  "gentest", env=consts(ty, lo, hi))
+    for lo, hi in (("0.5", "9.5"), ("5.0", "5.0"), ("9.5", "0.5")):
+        b.add("f64", [block("validate", [[tid("greater"), EQ, lf(lo)], [tid("less_or_equal"), EQ, tx(k("HI"))]]), D(["Debug"])],
+              "gentest", env=consts("f64", lo, hi, True))
     # defaults: valid, invalid, needing sanitisation; literal and constant
     for ty, dv, envs in (("i32", 5, []), ("i32", 50, []), ("i32", 150, []), ("i32", -3, [])):
         b.add(ty, [block("sanitize", [[tid("with"), EQ, tfn(0, "p", "s")]]), block("validate", [[tid("less"), EQ, li(100)], [tid("greater"), EQ, li(0)]]),
